@@ -37,6 +37,18 @@ Theorem C07_detection_needs_monotone_local_ticks : exists n e n' outs, WFI n /\ 
   c07_detection (n_me n) (o_inactivity (n_opts n)) (o_auto_fence (n_opts n)) e (init_ist n) (init_ist n') = false.
 Proof. exact detection_needs_tick_sane. Qed.
 
+(* Alternative without premise: with the exact clause for the local instance (at a local tick its tag is the tick's
+   counter, or 0 when that counter is lower than the stored one, as SupvisorsTimes.update does), the detection
+   checker accepts every event. c07_detection_exact differs from NodeSpec.c07_detection only by that clause. *)
+Theorem C07_detection_step_exact : forall n e n' outs, WFI n -> step n e = Ok (n', outs) ->
+  c07_detection_exact (n_me n) (o_inactivity (n_opts n)) (o_auto_fence (n_opts n)) e (init_ist n) (init_ist n') = true.
+Proof. exact detection_exact. Qed.
+
+Theorem C07_detection_exact_agrees : forall me inact af e j s r c s',
+  match e with LocalTick cnt _ _ => j = me -> r <= cnt | _ => True end ->
+  detect_body_exact me inact af e j s r c s' = detect_body me inact af e j s c s'.
+Proof. exact detect_body_exact_agrees. Qed.
+
 (* Accuracy in the property's wording: a peer seen RUNNING, for which no XML-RPC failure is notified and whose
    last TICK is never older than inactivity_ticks local ticks when a local tick arrives (live_hyp, checked along
    the run), is RUNNING after every event of the history. *)
